@@ -317,6 +317,39 @@ Theorem C08_nt_rename : forall users ui u, nth_error users ui = Some u ->
 Proof. exact nt_rename. Qed.
 Print Assumptions C08_nt_rename.
 
+(* ... and renaming between DIFFERENT directories, for ANY spelling of the two paths (bare, relative with a slash,
+   absolute -- the statement only sees their targets) and ANY working directory: out of the subdirectory d of par
+   into par (rename("box/old", "new")): the node is at par/m, d lost exactly that entry, nothing else changed ... *)
+Theorem C08_nt_rename_out : forall users ui u, nth_error users ui = Some u ->
+  forall w cwd p q par d n m ch chd x,
+    ready ui w cwd -> valid_path p -> valid_path q -> target cwd p = par ++ [d; n] -> target cwd q = par ++ [m] ->
+    rw u (par ++ [d; n]) -> rw u (par ++ [m]) ->
+    lookup par (w_fs w) = Some (NDir ch) -> assoc_t d ch = Some (NDir chd) -> assoc_t n chd = Some x ->
+    assoc_t m ch = None ->
+    exists w' o1 o2,
+      irun users w [ILine (client_cmd (t_of "RNFR") p) DNone; ILine (client_cmd (t_of "RNTO") q) DNone] = Some (w', [o1; o2]) /\
+      o_codes o1 = [code "350"] /\ o_codes o2 = [code "250"] /\
+      w_fs w' = graft par (NDir (replace_t d (NDir (remove_t n chd)) ch ++ [(m, x)])) (w_fs w) /\
+      lookup (par ++ [m]) (w_fs w') = Some x /\
+      lookup (par ++ [d; n]) (w_fs w') = assoc_t n (remove_t n chd) /\ ready ui w' cwd.
+Proof. exact nt_rename_out. Qed.
+Print Assumptions C08_nt_rename_out.
+
+(* ... and from par into its subdirectory d *)
+Theorem C08_nt_rename_into : forall users ui u, nth_error users ui = Some u ->
+  forall w cwd p q par d n m ch chd x,
+    ready ui w cwd -> valid_path p -> valid_path q -> target cwd p = par ++ [n] -> target cwd q = par ++ [d; m] ->
+    rw u (par ++ [n]) -> rw u (par ++ [d; m]) ->
+    lookup par (w_fs w) = Some (NDir ch) -> assoc_t d ch = Some (NDir chd) -> assoc_t n ch = Some x ->
+    assoc_t m chd = None -> n <> d ->
+    exists w' o1 o2,
+      irun users w [ILine (client_cmd (t_of "RNFR") p) DNone; ILine (client_cmd (t_of "RNTO") q) DNone] = Some (w', [o1; o2]) /\
+      o_codes o1 = [code "350"] /\ o_codes o2 = [code "250"] /\
+      w_fs w' = graft par (NDir (replace_t d (NDir (chd ++ [(m, x)])) (remove_t n ch))) (w_fs w) /\
+      lookup (par ++ [d; m]) (w_fs w') = Some x /\ ready ui w' cwd.
+Proof. exact nt_rename_into. Qed.
+Print Assumptions C08_nt_rename_into.
+
 (* non-vacuity: the hypotheses of C08_name_transparent hold together for the names a<q>b, <space>x,
    Type=dir; y, 250 z, spelled relative to the working directory "/ x" and absolutely (depth 2), and
    the model runs on the client's lines for them *)
@@ -349,7 +382,7 @@ Example C08_ex_same_name_nested :
   lookup [n_q; n_q] (w_fs ex_w_nested) = Some (NDir []) /\ assoc_t n_q ([] : list (text * node)) = None.
 Proof. exact ex_same_name_nested. Qed.
 
-(* Not covered by the composed theorem: RNTO to a different parent directory, STOR onto an existing file /
+(* Not covered by the composed theorem: RNTO between directories that are not parent and child (C08_nt_rename_out / _into cover those), paths spelled with '..', STOR onto an existing file /
    APPE / REST offsets (C05, C09), permission refusals (C04), concurrency (C17); what Model/Session.v
    abstracts (the data-channel bytes of a listing, the facts of an entry) enters through the codec
    theorems only. *)
